@@ -112,6 +112,7 @@ let dispatch cmd =
   | "extract" -> let v = nz () in let syn_mss = nz () in let b = ntext () in
       (match parse_packet v b with Unframed -> "\"unframed\"" | Framed r -> jres (jpacket syn_mss) r)
   | "parse_file" -> let lines = nlist ntext in jres jdb (parse_file lines)
+  | "parse_text" -> let t = ntext () in jres jdb (parse_text t)
   | "parse_tcp_sig" -> let t = ntext () in jres jsig (parse_tcp_sig t)
   | "parse_http_sig" -> let t = ntext () in jres jhsig (parse_http_sig t)
   | "parse_mtu_sig" -> let t = ntext () in jres ji (parse_mtu_sig t)
